@@ -105,7 +105,7 @@ def run(tier, seed, replay=None):
                 ret = o.raise_order(amounts[0])
             elif op == 'raise_dir':
                 dsel = [i for i, a in enumerate(amounts) if a][0]
-                ret = o.raise_order(amounts[dsel], direction=dsel)
+                ret = o.raise_order(amounts[dsel], direction=O.spell(rng, dsel))
             elif pd == 1:
                 ret = o.raise_order(amounts[0])
             else:
